@@ -81,6 +81,13 @@ def q_expr(a):
         return ["call", ["attr", N("loop"), "cycle"], [C("a"), C("b"), C("c")], []]
     if a == "changed":
         return ["call", ["attr", N("loop"), "changed"], [["bin", "//", N("x"), C(2)]], []]
+    if a == "changed0":
+        # no values at all: still "true when called for the first time"
+        return ["call", ["attr", N("loop"), "changed"], [], []]
+    if a == "changed2":
+        return ["call", ["attr", N("loop"), "changed"], [["bin", "//", N("x"), C(3)], C("k")], []]
+    if a == "changedstar":
+        return ["call", ["attr", N("loop"), "changed"], [["star", ["list", []]]], []]
     return ["attr", N("loop"), a]
 
 
@@ -248,7 +255,7 @@ def run(ctx):
     ctx.exhaustive = True
     # ---- every single query inside every wrapper construct
     j = 0
-    for a in ATTRS + ["cycle", "changed", "depth"]:
+    for a in ATTRS + ["cycle", "changed", "changed0", "changed2", "changedstar", "depth"]:
         for wrap in WRAPS[1:]:
             j += 1
             if not ctx.mine(j):
@@ -257,7 +264,7 @@ def run(ctx):
                 for form in ("list", "gen", "agen"):
                     check(ctx, envs, [(a,)], None, True, form, [(7 * i + 3) % 10 for i in range(n)], wrap=wrap)
     # ---- probes with cycle/changed/depth, filters, varying scripts (sampled)
-    extra = ATTRS + ["cycle", "changed", "depth", "depth0"]
+    extra = ATTRS + ["cycle", "changed", "changed0", "changed2", "changedstar", "depth", "depth0"]
     n_rand = 1500 if quick else 60000
     i = 0
     while ctx.more(i, n_rand, floor=200):
@@ -279,7 +286,7 @@ def run(ctx):
             ctx.count("varying_scripts")
         filt = None if holes else rng.choice([None, "odd", "gt"])
         if holes:
-            sc = [tuple(a for a in s_ if a != "changed") for s_ in sc]
+            sc = [tuple(a for a in s_ if not a.startswith("changed")) for s_ in sc]
         wrap = rng.choice(WRAPS) if len(sc) == 1 and rng.random() < 0.5 else None
         check(ctx, envs, sc, filt, rng.random() < 0.6, form, xs, k=rng.randint(0, 9), wrap=wrap)
         if i % 10 == 0:
